@@ -47,6 +47,9 @@ SPEC_MUTATIONS = [
     ("cancel_keeps_queue", "BookOps.tla", "  ELSE LET b1 == Dequeue(b, id) IN\n       [b1 EXCEPT !.orders[id + 1].status = \"Cancelled\",", "  ELSE LET b1 == b IN\n       [b1 EXCEPT !.orders[id + 1].status = \"Cancelled\",", "book"),
     ("step_time_off_by_one", "MarketOps.tla", "ProcessF(books, pending[perm[k]], start + k - 1)", "ProcessF(books, pending[perm[k]], start + k)", "env"),
     ("step_keeps_queue", "MarketOps.tla", "               !.pending = <<>>,\n               !.l2 =", "               !.l2 =", "env"),
+    # Sim.tla: an active agent with a live order submits a new order instead of cancelling it; the runner takes two steps per round
+    ("sim_agent_never_cancels", "Sim.tla", '    ELSE IF sl[i] # None /\\ O(bk, sl[i]).status = "Active"', '    ELSE IF FALSE /\\ sl[i] # None /\\ O(bk, sl[i]).status = "Active"', "sim"),
+    ("sim_trader_ids_off_by_one", "Sim.tla", "tr |-> i - 1,", "tr |-> i,", "sim"),
     ("py_bid_is_false", "PyView.tla", 'IsBid(s) == s = "B"', 'IsBid(s) == s = "A"', "pybook"),
     ("py_l1_volumes_swapped", "PyView.tla", "     l2[3],         \\* 3  bid total volume\n     l2[4],         \\* 4  ask total volume", "     l2[4],\n     l2[3],", "pyenv"),
     ("py_dict_counts_swapped", "PyView.tla", '            [] k = "n_bid_" \\o ToString(i)   -> l2[5][i + 1][2]', '            [] k = "n_bid_" \\o ToString(i)   -> l2[6][i + 1][2]', "pyenv"),
@@ -69,6 +72,14 @@ def _mutated_gen(name, module, old, new, kind):
             props.book_gen(ck, "m_" + name, Ops=["cap", "cancel", "modify"], ModPrices=[-1, 11], ModVols=["smaller", "larger"], MaxOrders=3, MaxOps=4)
         elif kind == "env":
             props.env_gen(ck, "m_" + name, kind="env", seeds=2, StepSize=3, MaxSubmits=3, MaxBatch=3, MaxSteps=2)
+        elif kind in ("sim", "sim3"):
+            try:
+                props.sim_outcomes(ck, "m_" + name, seeds=4000, NSteps=3 if kind == "sim3" else 2, **({"Rate": "one"} if kind == "sim3" else {}))
+            except ToolError as e:
+                if "invariant" in str(e):        # the mutated model violates its own simulation invariants: equally a refutation
+                    ck.violations.append({"stage": name, "what": str(e)[:200], "payload": {}})
+                else:
+                    raise
         elif kind == "pybook":
             props.py_book_gen(ck, "m_" + name, Ops=["cap", "cancel"], Prices=[10, 11], Vols=[1], MaxOrders=2, MaxOps=3)
         else:
